@@ -1,6 +1,7 @@
 package rules
 
 import (
+	"go/types"
 	"fmt"
 	"go/constant"
 	"go/token"
@@ -33,6 +34,9 @@ func r11hex(c *core.Ctx) {
 	const R = "R11.hex"
 	c.Rule(R, "hexCharToByte: '0'..'9' → c-'0'; every result fits a nibble")
 	fn := mustFunc(c, pStg, "hexCharToByte")
+	if r11hexTable(c, R, fn) {
+		return
+	}
 	p := core.NewPather(fn)
 	ia := core.NewIntervalAnalyzer(fn)
 	digitOK := false
@@ -61,6 +65,138 @@ func r11hex(c *core.Ctx) {
 		}
 	}
 	c.Check(digitOK, R, "stgutg.hexCharToByte:decimal-digits", fn.Pos(), "'0'..'9' → c-'0'", "decimal digit characters must map to their value (c - '0' exactly for '0' <= c <= '9')")
+}
+
+// r11hexTable: hexCharToByte as a lookup in a 256-entry package-level table. The table's contents
+// are obtained by folding the package initialiser (a composite literal, or a builder function with
+// constant loops - no input is involved), and its rows are compared with the specification.
+func r11hexTable(c *core.Ctx, R string, fn *ssa.Function) bool {
+	// the function returns tab[c] for a package-level array/slice tab and its own parameter c
+	var g *ssa.Global
+	for _, b := range fn.Blocks {
+		r, ok := b.Instrs[len(b.Instrs)-1].(*ssa.Return)
+		if !ok {
+			continue
+		}
+		if len(r.Results) != 1 {
+			return false
+		}
+		v := r.Results[0]
+		if ld, isLd := v.(*ssa.UnOp); isLd && ld.Op == token.MUL {
+			v = ld.X
+		}
+		var base, idx ssa.Value
+		switch x := v.(type) {
+		case *ssa.IndexAddr:
+			base, idx = x.X, x.Index
+		case *ssa.Index:
+			base, idx = x.X, x.Index
+		default:
+			return false
+		}
+		if cv, isC := idx.(*ssa.Convert); isC {
+			idx = cv.X
+		}
+		if idx != ssa.Value(fn.Params[0]) {
+			return false
+		}
+		if ld, isLd := base.(*ssa.UnOp); isLd && ld.Op == token.MUL {
+			base = ld.X
+		}
+		gg, isG := base.(*ssa.Global)
+		if !isG || (g != nil && g != gg) {
+			return false
+		}
+		g = gg
+	}
+	if g == nil || len(fn.Blocks) != 1 {
+		return false
+	}
+	initFn := g.Pkg.Func("init")
+	if initFn == nil {
+		return false
+	}
+	ex := core.NewExec()
+	ex.MaxStates = 64
+	ex.Enter = func(f *ssa.Function) bool { return f.Pkg == g.Pkg }
+	ex.OnCall = func(ev *core.AEvent, m *core.AMem) (core.AVal, bool) {
+		if ev.Fn != nil && ev.Fn.Pkg == g.Pkg {
+			return core.AVal{}, false
+		}
+		return core.OpaqueRet(ev), true // initialisers of other packages' values: irrelevant here
+	}
+	mem := core.NewMem()
+	mem.Store("global:"+g.Pkg.Pkg.Path()+".init$guard", core.AVal{K: core.AInt, Bits: core.ConstBits(0, 1)}, types.Typ[types.Bool])
+	outs, err := ex.Run(initFn, nil, mem)
+	if err != nil || len(outs) != 1 {
+		c.SoftUndecided("%s: the initialiser of %s could not be folded (%v, %d outcomes)", R, g.Name(), err, len(outs))
+		return true
+	}
+	base := "global:" + g.Pkg.Pkg.Path() + "." + g.Name()
+	// a package-level array starts zeroed; the initialiser stores only the rows its literal names.
+	// Nothing outside init may write the table (else its contents are not a property of the source).
+	for _, f := range allFuncsOf(g.Pkg) {
+		if f == initFn {
+			continue
+		}
+		for _, b := range f.Blocks {
+			for _, in := range b.Instrs {
+				if st, isSt := in.(*ssa.Store); isSt {
+					a := st.Addr
+					if ia, isIA := a.(*ssa.IndexAddr); isIA {
+						a = ia.X
+					}
+					if a == ssa.Value(g) {
+						c.SoftUndecided("%s: %s is written outside the package initialiser (%s)", R, g.Name(), f.Name())
+						return true
+					}
+				}
+			}
+		}
+	}
+	written := map[string]bool{}
+	for _, k := range outs[0].Mem.Cells(base + "[") {
+		written[k] = true
+	}
+	row := func(i int) (uint64, bool) {
+		cell := fmt.Sprintf("%s[%d]", base, i)
+		if !written[cell] && len(written) > 0 {
+			return 0, true
+		}
+		v := outs[0].Mem.Load(cell, types.Typ[types.Uint8])
+		return v.ConstVal()
+	}
+	okDigits, okNibble, okHex := true, true, true
+	bad := ""
+	for i := 0; i < 256; i++ {
+		v, isK := row(i)
+		if !isK {
+			c.SoftUndecided("%s: row %d of %s is not a constant after folding the initialiser", R, i, g.Name())
+			return true
+		}
+		if v > 15 {
+			okNibble, bad = false, fmt.Sprintf("%s[%d] = %d", g.Name(), i, v)
+		}
+		switch {
+		case i >= '0' && i <= '9':
+			if v != uint64(i-'0') {
+				okDigits, bad = false, fmt.Sprintf("%s[%q] = %d", g.Name(), rune(i), v)
+			}
+		case i >= 'a' && i <= 'f':
+			if v != uint64(i-'a'+10) {
+				okHex, bad = false, fmt.Sprintf("%s[%q] = %d", g.Name(), rune(i), v)
+			}
+		case i >= 'A' && i <= 'F':
+			if v != uint64(i-'A'+10) {
+				okHex, bad = false, fmt.Sprintf("%s[%q] = %d", g.Name(), rune(i), v)
+			}
+		}
+	}
+	c.Analysed(core.FuncName(fn))
+	c.Check(okNibble, R, "stgutg.hexCharToByte:return#1", fn.Pos(), "every row of the table is within 0..15", "a result (%s) is not within 0..15: it would spill into the neighbouring nibble", bad)
+	c.Check(okDigits, R, "stgutg.hexCharToByte:decimal-digits", fn.Pos(), "'0'..'9' → c-'0' (table rows)", "decimal digit characters must map to their value (c - '0' exactly for '0' <= c <= '9'): %s", bad)
+	c.Check(okHex, R, "stgutg.hexCharToByte:hex-letters", fn.Pos(), "'a'..'f' / 'A'..'F' → 10..15 (table rows)", "hex letters must map to 10..15: %s", bad)
+	return true
 }
 
 func isHexCall(src string) (int, bool) {
